@@ -74,6 +74,9 @@ class C07(core.Prop):
         'SQLite itself is not modelled',
     ]
 
+    def revive(self, case):
+        return cx.revive(case)
+
     def corpus(self):
         return [
             {'col': {'name': 'b', 'fam': 'bool', 'cells': [True, False]}, 'rex': False},
